@@ -11,7 +11,7 @@ import (
 )
 
 func init() {
-	register("C05", ruleC05Window, ruleC05LessTable, ruleC05SortWiring, ruleC05BuildLimitOrder)
+	register("C05", ruleC05Window, ruleC05LessTable, ruleC05SortWiring, ruleC05BuildLimitOrder, ruleExecScansEveryRow)
 }
 
 // ruleC05Window: every reslice of the result in exec is proven in range by dominating guards
